@@ -67,7 +67,14 @@ static const char* my_witness = "";       // unknown answers on the path conditi
 static double now_s() { return std::chrono::duration<double>(std::chrono::steady_clock::now().time_since_epoch()).count(); }
 static inline uint64_t bits(double d) { uint64_t b; memcpy(&b, &d, 8); return b; }
 static inline bool is_sym(double d) { return (bits(d) & TAGMASK) == TAG; }
-static double mk_handleT(const Term& t) { terms->push_back(t); uint64_t b = TAG | (uint64_t)(terms->size() - 1); double d; memcpy(&d, &b, 8); return d; }
+static z3::expr constant(double d);
+static double mk_handleT(const Term& t) {
+  // a term that is a plain numeral exactly representable as a double goes back to the concrete world (so that e.g. exp(0) is evaluated natively)
+  if (mode == REAL && t.nf.empty() && t.df.empty() && t.c.is_numeral()) {
+    double d = 0; bool ok = true; try { d = strtod(t.c.get_decimal_string(40).c_str(), nullptr); } catch (...) { ok = false; }
+    if (ok && std::isfinite(d) && fabs(d) < 1e300) { z3::expr back = constant(d); if (z3::eq(back, t.c.simplify())) return d; }
+  }
+  terms->push_back(t); uint64_t b = TAG | (uint64_t)(terms->size() - 1); double d; memcpy(&d, &b, 8); return d; }
 static Term texpr(const z3::expr& e);
 static double mk_handle(const z3::expr& e);
 
